@@ -16,7 +16,7 @@ def _c04(args):
     """One program, K perturbed variants (different cuts / perturbation kinds)."""
     seed, i, K = args
     rng = random.Random((seed * 48271 + i * 69621) & 0xFFFFFFFF)
-    fam = rng.choice(["lookback", "lookback", "lookback", "flat", "nested", "flows", "risk", "replay", "fi", "closeroll"])
+    fam = rng.choice(["lookback", "lookback", "lookback", "flat", "nested", "flows", "risk", "replay", "fi", "closeroll", "hasdata_nested", "hasdata_nested", "hasdata_nested"])
     prog = btgen.prog_by_family(seed, i, fam)
     T = prog["T"]
     outs = []
@@ -35,13 +35,9 @@ def _c04(args):
         if "bt" not in rb:
             continue
         if rb["exc"] != "none":
-            # the perturbed run may legitimately stop after the cut; what it recorded
-            # up to the cut is still compared if it got that far
-            try:
-                if rb["bt"].strategy.now <= rb["bt"].data.index[cut]:
-                    continue
-            except Exception:  # noqa: BLE001
-                continue
+            # the perturbed run may legitimately stop after the cut (a price that went missing
+            # under an open position): the reports of a crashed tree are not comparable
+            continue
         db = pairdrv.digests(rb["bt"], pert)
         out["trace"] = {
             "prop": "C04", "rel": "prefix", "cut": cut + 1,
